@@ -363,6 +363,32 @@ def finish(prop, tier, seed, acc, t0, rule, bounds, exhaustive=True, assumptions
     return rc
 
 
+ROUTES = ("plain", "plain", "plain", "lower", "spaced", "SeqObj", "mixed", "plain")
+
+
+def route_of(seq):
+    import zlib
+    return ROUTES[zlib.crc32(seq.encode()) % len(ROUTES)]
+
+
+def sp(seq):
+    """SequenceParameters for `seq` through one of the construction routes that the statements declare equivalent
+    (C13: upper-casing and whitespace removal; SeqObj = a backend Sequence of the same residues).  The route is a
+    deterministic function of the sequence, so a replay takes the same one."""
+    from localcider.sequenceParameters import SequenceParameters
+    r = route_of(seq)
+    if r == "lower":
+        return SequenceParameters(seq.lower())
+    if r == "spaced":
+        return SequenceParameters(" ".join(seq[i:i + 7] for i in range(0, len(seq), 7)) + "\n")
+    if r == "mixed":
+        return SequenceParameters("\t" + "".join(c.lower() if i % 3 == 1 else c for i, c in enumerate(seq)))
+    if r == "SeqObj":
+        from localcider.backend.sequence import Sequence
+        return SequenceParameters(SeqObj=Sequence(seq))
+    return SequenceParameters(seq)
+
+
 def close(a, b, rel=1e-9, abs_=1e-12):
     try:
         a = float(a)
